@@ -187,6 +187,20 @@ def _run_uperm(ctx, spec, rng):
                 ok = first in want and len(got2) == len(set(got2)) and set(got2) == want and nested_ok and len(seen_outer) == len(set(seen_outer)) and set(seen_outer) == want
                 ctx.check("unique_perms:exact-once", ok, sig=(n, combo, "history"), nt=True, mech="unique_perms:enumeration-depends-on-earlier-or-concurrent-enumerations",
                           detail={"elements": elems, "after-abandoned": len(got2), "outer": len(seen_outer), "nested_ok": nested_ok, "want": len(want)})
+    # the same multisets written with other integer symbols: negative numbers, zero, values far apart
+    if n >= 2:
+        for symbols in ([-1, 1, 0, 7], [-3, -1, -2, -7], [0, 100, 5, -100]):
+            for combo in itertools.combinations_with_replacement(range(k), n):
+                if len(set(combo)) != min(k, n):
+                    continue
+                elems = [symbols[c] for c in combo]
+                res = _call(ctx, unique_perms, list(elems))
+                if res is None:
+                    continue
+                got = [tuple(x) for x in res]
+                want = set(itertools.permutations(elems))
+                ctx.check("unique_perms:exact-once", len(got) == len(set(got)) and set(got) == want, sig=(n, combo, tuple(symbols[:k])), nt=True,
+                          mech="unique_perms:wrong-set[symbols-other-than-1..k]", detail={"elements": elems, "returned": len(got), "want": len(want)})
     ctx.sample("unique_perms:exact-once", {"n": n, "symbols": k})
 
 
